@@ -77,7 +77,7 @@ func (w *failWriter) Write(p []byte) (int, error) {
 	return n, nil
 }
 
-var resScenarios = []string{"builder-close", "build-close", "build-fail", "parse-close", "parse-fault", "parse-fault", "parse-fault", "revisit-merge", "revisit-built-merge", "revisit-built-merge", "reader", "reader-badoffset", "marshal-fail"}
+var resScenarios = []string{"builder-close", "build-close", "build-fail", "parse-close", "parse-fault", "parse-fault", "parse-fault", "revisit-merge", "revisit-built-merge", "revisit-built-merge", "reader", "reader-badoffset", "reader-directory", "reader-missing", "reader-beyond", "marshal-fail"}
 
 func genRes(r *rand.Rand, n int, tier string, out *bufio.Writer) {
 	for i := 0; i < n; i++ {
@@ -253,7 +253,7 @@ func runRes(toks []string) (string, string) {
 				}
 				orig.Close()
 			}
-		case "reader", "reader-badoffset":
+		case "reader", "reader-badoffset", "reader-directory", "reader-missing", "reader-beyond":
 			path := filepath.Join(dir, "f.warc")
 			rb := newBuilder()
 			orig, _, _ := rb.Build()
@@ -262,8 +262,15 @@ func runRes(toks []string) (string, string) {
 			f.Close()
 			orig.Close()
 			off := int64(0)
-			if sc == "reader-badoffset" {
+			switch sc {
+			case "reader-badoffset":
 				off = -1
+			case "reader-directory": // every way the construction can fail
+				path = tmp
+			case "reader-missing":
+				path = filepath.Join(dir, "nosuchfile.warc")
+			case "reader-beyond":
+				off = 1 << 40
 			}
 			rd, err := gowarc.NewWarcFileReader(path, off, opts...)
 			mark("opened")
